@@ -21,7 +21,7 @@ RULE = ('Evaluation = one ampycloud call (CeiloChunk(...), find_slices/find_grou
 ASSUMPTIONS = ['aliasing between chunk.prms and the the caller own dict (lists are assigned by reference) is not claimed by the property and not checked']
 REQUIRED = ['global_nested_edit_after_construction', 'global_list_element_edit', 'snapshot_edit', 'snapshot_list_element_edit',
             'unknown_keys', 'reset_between', 'frame_extra_columns_right_dtypes', 'frame_wrong_dtypes', 'frame_from_previous_chunk',
-            'final_digest_checked', 'prms_none', 'numpy_valued_prms', 'set_prms_between', 'complete_section_reversed_range']
+            'final_digest_checked', 'prms_none', 'numpy_valued_prms', 'set_prms_between', 'complete_section_reversed_range', 'exclusion_given_as_bare_str']
 SIZES = {'quick': 260, 'thorough': 5000}
 
 GLOBAL_EDITS = [
@@ -90,6 +90,10 @@ def percall(rng, sc, tags):
         tags.add('complete_section_reversed_range')
         p['GROUPING_PRMS'] = {'height_pad_perc': float(rng.choice([10, 40])), 'dt_scale': float(rng.choice([180, 90])),
                               'height_scale_range': [float(rng.choice([500, 900])), float(rng.choice([100, 50]))]}
+    if rng.uniform() < 0.25:
+        # the exclusion given as a bare string (the form the package's own tests use)
+        tags.add('exclusion_given_as_bare_str')
+        p['EXCLUDE_FOR_BASE_HEIGHT_CALC'] = str(sc['names'][int(rng.integers(len(sc['names'])))])
     if rng.uniform() < 0.3:
         p['MSA'] = None
     elif rng.uniform() < 0.25:
